@@ -38,6 +38,47 @@ def mkfile(tpb, evs, ntracks=1, typ=1):
     return mf
 
 
+def mkfile_tracks(tpb, tracks_evs, typ=1):
+    import mido
+    mf = mido.MidiFile(type=typ, ticks_per_beat=tpb)
+    for ti, evs in enumerate(tracks_evs):
+        tr = mido.MidiTrack()
+        for i, (dt, tempo, meta) in enumerate(evs):
+            if tempo >= 0:
+                tr.append(mido.MetaMessage('set_tempo', tempo=tempo, time=dt))
+            elif meta:
+                tr.append(mido.MetaMessage('marker', text='%d:%d' % (ti, i), time=dt))
+            else:
+                tr.append(mido.Message('note_on', channel=ti % 16, note=i % 128, velocity=(i // 128) % 128, time=dt))
+        mf.tracks.append(tr)
+    return mf
+
+
+def merged_stream(tracks_evs):
+    """the merged stream of several tracks, written independently: absolute ticks, ties in track order then in-track order"""
+    evs = []
+    for ti, tr in enumerate(tracks_evs):
+        now = 0
+        for j, (dt, tempo, meta) in enumerate(tr):
+            now += dt
+            evs.append((now, ti, j, tempo, meta))
+    evs.sort(key=lambda e: e[:3])
+    out, prev = [], 0
+    for (a, _, _, tempo, meta) in evs:
+        out.append((a - prev, tempo, meta))
+        prev = a
+    return out
+
+
+def split_tracks(rng, evs):
+    """several tracks whose events fall on few distinct ticks, so that tempo changes of different tracks meet on one tick"""
+    nt = rng.choice([2, 2, 3, 5])
+    tracks = [[] for _ in range(nt)]
+    for (dt, tempo, meta) in evs:
+        tracks[rng.randrange(nt)].append((rng.choice([0, 0, 0, 1, 96, dt]), tempo, meta))
+    return tracks
+
+
 def random_events(rng, n=None, tempos=True):
     n = rng.randrange(1, 40) if n is None else n
     evs = []
@@ -67,7 +108,7 @@ class FakeClock:
         self.t += d + (self.oversleep.pop(0) if self.oversleep else 0.0)
 
 
-def run_play(mf, meta_messages, start, holds, oversleep):
+def run_play(mf, meta_messages, start, holds, oversleep, poke=None):
     """real play() against a scripted clock; returns [(message, clock at yield)]"""
     import mido.midifiles.midifiles as mm
     clock = FakeClock(start, oversleep)
@@ -82,6 +123,8 @@ def run_play(mf, meta_messages, start, holds, oversleep):
         holds = list(holds)
         for msg in mf.play(meta_messages=meta_messages, now=clock.now):
             res.append((msg, clock.t))
+            if poke is not None:
+                poke()
             clock.t += holds.pop(0) if holds else 0.0
         return res, clock
     finally:
@@ -91,7 +134,12 @@ def run_play(mf, meta_messages, start, holds, oversleep):
 def check_file(rng, tpb, evs):
     """oracle on the implementation + data for the model comparisons; returns (failure, float case, iter case, outputs)"""
     import mido
-    mf = mkfile(tpb, evs)
+    if rng.random() < 0.5:
+        tracks_evs = split_tracks(rng, evs)
+        evs = merged_stream(tracks_evs)
+        mf = mkfile_tracks(tpb, tracks_evs)
+    else:
+        mf = mkfile(tpb, evs)
     msgs = list(mf)
     # exact tempo-map integral, independently: Fractions
     tempo, acc, exact = 500000, Fraction(0), []
@@ -112,6 +160,30 @@ def check_file(rng, tpb, evs):
     ln = mf.length
     if abs(Fraction(ln) - exact[-1]) > Fraction(len(evs) + 2, 2 ** 50) * max(exact[-1], Fraction(1, 10 ** 12)):
         return ('length', 'length %r but the last message is at %r' % (ln, float(exact[-1])))
+    # iterations of one file are independent of each other and of length: interleave two iterations and reads of length
+    it1, it2, got1, got2 = iter(mf), None, [], []
+    for k in range(len(msgs)):
+        got1.append(next(it1))
+        r = rng.random()
+        if r < 0.3:
+            if mf.length != ln:
+                return ('length-unstable', 'length read during an iteration is %r, before it %r' % (mf.length, ln))
+        elif r < 0.6:
+            if it2 is None:
+                it2 = iter(mf)
+            for _ in range(rng.randrange(0, 3)):
+                x = next(it2, None)
+                if x is not None:
+                    got2.append(x)
+    if it2 is not None:
+        got2 += list(it2)
+    for name, got in (('an iteration interleaved with another iteration and reads of length', got1), ('a second iteration started during the first', got2)):
+        if got is got2 and it2 is None:
+            continue
+        if [(x.type, x.time) for x in got] != [(x.type, x.time) for x in msgs]:
+            k = next((i for i, (x, y) in enumerate(zip(got, msgs)) if (x.type, x.time) != (y.type, y.time)), min(len(got), len(msgs)))
+            return ('iter-interleaved', '%s yields %r at message %d, a lone iteration %r (tpb %d)'
+                    % (name, [(x.type, x.time) for x in got[k:k + 2]], k, [(x.type, x.time) for x in msgs[k:k + 2]], tpb))
     # the same object after its tempo map was edited in place (same number of messages): times must follow the map it has NOW
     edited = False
     for tr in mf.tracks:
@@ -137,7 +209,7 @@ def check_file(rng, tpb, evs):
 
 
 def check_play(rng, tpb, evs):
-    mf = mkfile(tpb, evs)
+    mf = mkfile_tracks(tpb, split_tracks(rng, evs)) if rng.random() < 0.5 else mkfile(tpb, evs)
     sched, acc = [], 0.0
     for m in mf:
         acc += m.time
@@ -162,6 +234,12 @@ def check_play(rng, tpb, evs):
             if abs(t - expect) > 1e-6 * max(1.0, abs(expect)) and not (not mmf and t <= max(start + s, prev_back) + 1e-6 and t >= start + s - 1e-6):
                 return ('play-drift', 'with exact sleeps a message scheduled at +%r was yielded at +%r; consumer came back at +%r' % (s, t - start, prev_back - start))
             prev_back = t + h
+        # the consumer reads length (and starts an iteration) between messages: playback must not notice
+        res1, _ = run_play(mf, mmf, start, holds, [], poke=lambda: (mf.length, next(iter(mf), None)))
+        if [(repr(m), t) for m, t in res1] != [(repr(m), t) for m, t in res0]:
+            k = next((i for i, (x, y) in enumerate(zip(res1, res0)) if (repr(x[0]), x[1]) != (repr(y[0]), y[1])), min(len(res1), len(res0)))
+            return ('play-interleaved', 'when the consumer reads length between messages, play() yields message %d at +%r instead of +%r'
+                    % (k, res1[k][1] - start if k < len(res1) else None, res0[k][1] - start if k < len(res0) else None))
     return None
 
 
@@ -310,10 +388,10 @@ def run(out):
     if mido.second2tick(mido.tick2second(big, 480, 500000), 480, 500000) != big:
         out.failures.append(('second2tick.ticks>=2**53', 'second2tick(tick2second(2**53+1, 480, 500000)) != 2**53+1', {'component': 'inverse', 'case': [big, 480, 500000]}))
     out.rule = ('generated merged streams (1-39 messages, deltas 0..100000 ticks, set_tempo at random positions incl. tempo 0, 1, 2, 16777215, '
-                'ticks_per_beat 1..32767): cumulative iteration time against the exact tempo-map integral (Fractions) and length; the exact Coq '
+                'ticks_per_beat 1..32767; half of them spread over 2-5 tracks with few distinct ticks, so that tempo changes of different tracks share a tick): cumulative iteration time against the exact tempo-map integral (Fractions) and length; the exact Coq '
                 'model compared with the floats within n*2^-50; the binary64 Coq model compared BIT FOR BIT (tick2second, second2tick, iteration '
                 'deltas, running sum) by kernel vm_compute; play() on a scripted clock with consumer holds and oversleeps (never early, no drift, '
-                'meta filter) and compared exactly with the model on dyadic times; type 2 refusal; the inverse on 2000 random ticks below 2**50. '
+                'meta filter; two iterations of one file and reads of length interleaved, play() with a consumer that reads length) and compared exactly with the model on dyadic times; type 2 refusal; the inverse on 2000 random ticks below 2**50. '
                 'Non-trivial: every generated stream; distinct by content.')
     out.sample({'component': 'float', 'case': fc[0], 'implementation': fi[0]})
     out.sample({'component': 'iter', 'events': random_events(random.Random(1), 6)})
